@@ -784,52 +784,132 @@ func runChatE2E(c *Case) {
 	c.Dist("e2e/run")
 }
 
-// runStaleMemberObservation documents (it does not judge) what DESIGN §15 describes: the member map keeps a
-// disconnected member, so once the 16-bit id space has wrapped a newcomer that is handed the departed member's id
-// is addressed by that chat's traffic.  The delivery theorems exclude this by the hypothesis NoStaleReuse
-// (proved for histories below 65 536 events); the outcome is recorded in the evidence as an observation.
-func runStaleMemberObservation(c *Case) {
+// runStaleMember judges what fix 7d7f993 repaired: a member disconnects (its entry stays in the member map), the
+// 16-bit id space wraps and its id is handed to a newcomer who never joined.  The newcomer must receive nothing of that
+// chat (lines, subject changes, join / leave / decline notices); the remaining members still receive everything, each
+// exactly once; after a join the newcomer is a member like anybody else.
+func runStaleMember(c *Case) {
+	r := c.R
 	ts, err := newTS(TSOpt{Direct: true, Accounts: c12Accounts()})
 	if err != nil {
 		panic(err)
 	}
 	defer ts.Close()
-	a, _ := ts.DirectClient("u7", []byte("alice"), "10.0.9.1:1")
-	b, _ := ts.DirectClient("u7", []byte("bob"), "10.0.9.2:1")
-	res, _, _ := callSync(ts, a, mkTran(hotline.TranInviteNewChat, 1001, fld(hotline.FieldUserID, b.ID[:])))
+	mgr := ts.Srv.ClientMgr.(*hotline.MemClientMgr)
+	idOf := func(cc *hotline.ClientConn) int { return int(binary.BigEndian.Uint16(cc.ID[:])) }
+	call := func(cc *hotline.ClientConn, t hotline.Transaction) []hotline.Transaction {
+		res, queued, p := callSync(ts, cc, t)
+		if p != nil {
+			c.Note("panic", fmt.Sprint(p))
+			c.Violation("chat-handler-panic", "a chat handler panicked on a well-formed request")
+		}
+		return append(queued, res...)
+	}
+	// members: alice (creator), bob (will leave the server), carol (stays)
+	alice, _ := ts.DirectClient("u7", []byte("alice"), "10.0.9.1:1")
+	bob, _ := ts.DirectClient("u7", []byte("bob"), "10.0.9.2:1")
+	carol, _ := ts.DirectClient("u7", []byte("carol"), "10.0.9.3:1")
 	var chat []byte
-	for i := range res {
-		if res[i].IsReply == 1 {
-			chat, _ = fieldOf(&res[i], 114)
+	for _, t := range call(alice, mkTran(hotline.TranInviteNewChat, 1001, fld(hotline.FieldUserID, bob.ID[:]))) {
+		if t.IsReply == 1 {
+			chat, _ = fieldOf(&t, 114)
 		}
 	}
 	if len(chat) != 4 {
-		c.Disagree("observation-setup", "could not create a chat for the id-reuse observation")
+		c.Disagree("stale-member-setup", "could not create a chat")
 		return
 	}
-	callSync(ts, b, mkTran(hotline.TranJoinChat, 1002, fld(hotline.FieldChatID, chat)))
-	disconnectSync(ts, b)
-	// 65 534 further connections later (emulated by moving the counter) the id of the departed member is handed out again
-	ts.Srv.ClientMgr.(*hotline.MemClientMgr).VerifSetNextClientID(uint32(65535 + 65536*c.R.Intn(3)))
-	n, _ := ts.DirectClient("u1", []byte("newcomer"), "10.0.9.3:1")
-	res, _, _ = callSync(ts, a, mkTran(hotline.TranChatSend, 1003, fld(hotline.FieldData, []byte("secret")), fld(hotline.FieldChatID, chat)))
-	reached := false
-	for i := range res {
-		if ts.Srv.ClientMgr.Get(res[i].ClientID) == n {
-			reached = true
+	call(bob, mkTran(hotline.TranJoinChat, 1002, fld(hotline.FieldChatID, chat)))
+	call(carol, mkTran(hotline.TranJoinChat, 1003, fld(hotline.FieldChatID, chat)))
+	bobID := idOf(bob)
+	disconnectSync(ts, bob)
+	// "65 534 connections later": the counter comes round and bob's id is the first free one
+	mgr.VerifSetNextClientID(uint32(65535 + 65536*r.Intn(3)))
+	newcomer, _ := ts.DirectClient(fmt.Sprintf("u%d", r.Pick(1, 3, 7)), []byte("newcomer"), "10.0.9.4:1")
+	reissued := idOf(newcomer) == bobID
+	c.Note("departed_member_id", bobID)
+	c.Note("newcomer_id", idOf(newcomer))
+	members := map[*hotline.ClientConn]bool{alice: true, carol: true}
+	req := uint32(1100)
+	// judge one request: every output of the chat reaches exactly the current members, once; the newcomer nothing
+	judge := func(what string, outs []hotline.Transaction, ty int, exclude *hotline.ClientConn) {
+		got := map[*hotline.ClientConn]int{}
+		for i := range outs {
+			t := &outs[i]
+			if t.IsReply == 1 || tranType(t) != ty {
+				continue
+			}
+			if cc := ts.Srv.ClientMgr.Get(t.ClientID); cc != nil {
+				got[cc]++
+			}
+		}
+		for cc, n := range got {
+			if !members[cc] {
+				c.Note("request", what)
+				c.Note("outputs", clip(outsStr(outs)))
+				c.Violation("stale-member-receives-chat-traffic", fmt.Sprintf("%s of a private chat was delivered (%d×) to user %q (id %d), who never joined it: the id was held earlier by a member who has disconnected", what, n, cc.UserName, idOf(cc)))
+				return
+			}
+		}
+		for cc := range members {
+			want := 1
+			if cc == exclude {
+				want = 0
+			}
+			if got[cc] != want {
+				c.Note("request", what)
+				c.Note("outputs", clip(outsStr(outs)))
+				c.Violation("member-misses-chat-traffic", fmt.Sprintf("%s: member %q received it %d times, expected %d", what, cc.UserName, got[cc], want))
+				return
+			}
 		}
 	}
-	c.Dist(fmt.Sprintf("observation/newcomer-with-reissued-id=%v-receives-private-line=%v", n.ID == b.ID, reached))
-	c.Nontrivial(fmt.Sprintf("stale %d", c.R.Intn(1<<30)))
+	steps := 4 + r.Intn(6)
+	for i := 0; i < steps && !c.failed; i++ {
+		req++
+		switch r.Intn(6) {
+		case 0, 1:
+			sender := []*hotline.ClientConn{alice, carol, newcomer}[r.Intn(3)]
+			if !sender.Authorize(hotline.AccessSendChat) {
+				continue
+			}
+			judge("a chat line", call(sender, mkTran(hotline.TranChatSend, req, fld(hotline.FieldData, textBytes(r, r.Intn(30))), fld(hotline.FieldChatID, chat))), 106, nil)
+		case 2:
+			judge("a subject change", call(carol, mkTran(hotline.TranSetChatSubject, req, fld(hotline.FieldChatID, chat), fld(hotline.FieldChatSubject, textBytes(r, 8)))), 119, nil)
+		case 3:
+			judge("a decline notice", call(newcomer, mkTran(hotline.TranRejectChatInvite, req, fld(hotline.FieldChatID, chat))), 106, nil)
+		case 4:
+			// somebody else joins: the notice goes to the members only
+			d, _ := ts.DirectClient("u7", []byte("dave"), fmt.Sprintf("10.0.9.%d:1", 10+i))
+			judge("a join notice", call(d, mkTran(hotline.TranJoinChat, req, fld(hotline.FieldChatID, chat))), 117, nil)
+			members[d] = true
+		default:
+			// a member leaves the chat: notice to the remaining members
+			if len(members) > 1 && members[carol] {
+				delete(members, carol)
+				judge("a leave notice", call(carol, mkTran(hotline.TranLeaveChat, req, fld(hotline.FieldChatID, chat))), 118, nil)
+			}
+		}
+	}
+	if !c.failed && r.Chance(60) {
+		// the newcomer joins after all: from now on it is a member
+		req++
+		judge("a join notice", call(newcomer, mkTran(hotline.TranJoinChat, req, fld(hotline.FieldChatID, chat))), 117, nil)
+		members[newcomer] = true
+		req++
+		judge("a chat line", call(alice, mkTran(hotline.TranChatSend, req, fld(hotline.FieldData, []byte("welcome")), fld(hotline.FieldChatID, chat))), 106, nil)
+	}
+	c.Dist(fmt.Sprintf("stale-member/id-reissued=%v", reissued))
+	c.Nontrivial(fmt.Sprintf("stale %d %d %d", bobID, idOf(newcomer), r.Intn(1<<30)))
 }
 
 func init() {
 	props["C12"] = func(x *Ctx) {
-		x.rule = "histories of login / disconnect / invite-to-new-chat / invite / join / leave / decline / set-subject / send (public, private, emote, odd option values) by 2-8 clients drawn from 9 accounts covering every combination of read-chat, send-chat and open-chat (plus an administrator); names and messages are arbitrary byte strings (ASCII, Mac-Roman, valid UTF-8 of width 2-4, truncated / overlong / surrogate sequences, NUL, CR) with lengths biased to 0,1,12..15 and 8150..9000; chat ids are the ones the server drew. Every handler result is compared with the Lean model's output for the same history and judged directly (audience computed from the membership implied by the history; text by a reference formatter). non-trivial = the history contains a public line with both a reader and a non-reader connected, or a private line / notice with both a connected member and a connected non-member; distinct = distinct event lists"
+		x.rule = "histories of login / disconnect / invite-to-new-chat / invite / join / leave / decline / set-subject / send (public, private, emote, odd option values) by 2-8 clients drawn from 9 accounts covering every combination of read-chat, send-chat and open-chat (plus an administrator); names and messages are arbitrary byte strings (ASCII, Mac-Roman, valid UTF-8 of width 2-4, truncated / overlong / surrogate sequences, NUL, CR) with lengths biased to 0,1,12..15 and 8150..9000; chat ids are the ones the server drew. Every handler result is compared with the Lean model's output for the same history and judged directly (audience computed from the membership implied by the history; text by a reference formatter). stale-member: a member disconnects, the id counter is moved past the wrap so that a newcomer is handed its id, then lines / subject / decline / join / leave traffic of that chat is judged (members exactly once, newcomer nothing, until it joins). non-trivial = the history contains a public line with both a reader and a non-reader connected, or a private line / notice with both a connected member and a connected non-member; distinct = distinct event lists"
 		x.assume = []string{
 			"a single net.Conn.Write is atomic (end-to-end runs use an in-memory connection with that behaviour)",
 			"histories are sequential (one request is handled at a time); concurrent schedules are C14's subject",
-			"fewer than 65 535 connections per run, so no user id is reissued while a chat still lists its previous holder (DESIGN §15; C13 covers the id space)",
+			"id reuse after the 16-bit id space wraps is emulated by moving the id counter (test hook) instead of making 65 535 connections",
 		}
 		x.Add(&Family{Name: "gofmt", Quick: 4000, Thor: 100000, Run: func(c *Case) {
 			r := c.R
@@ -868,6 +948,6 @@ func init() {
 		}})
 		x.Add(&Family{Name: "chat-history", Quick: 3000, Thor: 40000, Run: runChatHistory})
 		x.Add(&Family{Name: "chat-e2e", Quick: 16, Thor: 400, Run: runChatE2E})
-		x.Add(&Family{Name: "stale-member-observation", Quick: 3, Thor: 10, Run: runStaleMemberObservation})
+		x.Add(&Family{Name: "stale-member", Quick: 60, Thor: 1500, Run: runStaleMember})
 	}
 }
